@@ -7,10 +7,23 @@ use std::task::{Context, Poll};
 pub use std::time::Duration;
 
 pub static mut NOW_NS: u64 = 0;
+/// bumped by every `advance_ns` call (lets a test future wait for "the clock has moved")
+pub static mut CLOCK_VERSION: u64 = 0;
+pub fn clock_version() -> u64 {
+    unsafe { CLOCK_VERSION }
+}
 /// every `Duration` handed to `timeout`/`sleep` since the start (last one, count): lets a
 /// harness check that a forwarder passes its timeout argument on unmodified.
 pub static mut LAST_TIMEOUT_NS: u64 = 0;
 pub static mut TIMEOUTS_CREATED: usize = 0;
+pub fn model_reset() {
+    unsafe {
+        NOW_NS = 0;
+        CLOCK_VERSION = 0;
+        LAST_TIMEOUT_NS = 0;
+        TIMEOUTS_CREATED = 0;
+    }
+}
 pub fn timeouts_created() -> usize {
     unsafe { TIMEOUTS_CREATED }
 }
@@ -29,7 +42,10 @@ pub fn now_ns() -> u64 {
     unsafe { NOW_NS }
 }
 pub fn advance_ns(d: u64) {
-    unsafe { NOW_NS = NOW_NS.saturating_add(d) }
+    unsafe {
+        NOW_NS = NOW_NS.saturating_add(d);
+        CLOCK_VERSION += 1;
+    }
 }
 fn dur_ns(d: Duration) -> u64 {
     let n = d.as_nanos();
